@@ -47,11 +47,12 @@ PCross2(p, q, r) == RSub(RMul(RSub(q[1], p[1]), RSub(r[2], p[2])), RMul(RSub(q[2
 RoundTrip == \A j \in 1..Len(pverts) : PFromChart(PChart(Img(j), chart), chart) = Prim(Img(j))
 Transition == \A j \in 1..Len(pverts) : \A i \in 0..2 :
                 PInChart(Img(j), i) => PChart(PFromChart(PChart(Img(j), chart), chart), i) = PChart(Img(j), i)
-Collinear == \A a, b, c \in 1..Len(pverts) :
+\* (triples with the last vector: the others were checked in the scene this one extends)
+Collinear == \A a, b \in 1..Len(pverts) : \A c \in {Len(pverts)} :
                (PDet3(Img(a), Img(b), Img(c)) = 0) <=> RIsZero(PCross2(PChart(Img(a), chart), PChart(Img(b), chart), PChart(Img(c), chart)))
 \* the transformation is invertible and maps lines to lines
 Invertible == PDet3(tm[1], tm[2], tm[3]) # 0
-LinesToLines == \A a, b, c \in 1..Len(pverts) : (PDet3(pverts[a], pverts[b], pverts[c]) = 0) <=> (PDet3(Img(a), Img(b), Img(c)) = 0)
+LinesToLines == \A a, b \in 1..Len(pverts) : \A c \in {Len(pverts)} : (PDet3(pverts[a], pverts[b], pverts[c]) = 0) <=> (PDet3(Img(a), Img(b), Img(c)) = 0)
 
 EmitProj == pverts = <<>> \/ PrintT("EMIT " \o ToJson([chart |-> chart, M |-> tm, verts |-> pverts,
                                                           aff |-> [j \in 1..Len(pverts) |-> PChart(Img(j), chart)]]))
